@@ -51,6 +51,12 @@ CHECKS.update({
          "only data expressible in all four formats; mismatch classes on which the underlying libraries legitimately differ are excluded and listed in the check's assumptions; map[string]struct values are observed only",
          "DESIGN.md section 4 C13"),
 })
+CHECKS.update({
+ 'C15': ("runtime round-trip and range monitors with an exact math/big oracle over a fixed boundary corpus plus seeded families, against the real parse package and flag helpers",
+         "parse(format(v)) == v (floats bitwise, NaN by class, nil==empty, result type = requested type) is executed for 33 scalar types (17 builtin, 16 named), slices of each, the four string collections, the 11 integral-slice element types and every flag helper's Set/String pair; literals whose exact value (math/big) lies outside the target range must be errors in scalar, element, key and value position; decorated integer elements (base prefixes, digit separators, whitespace) must be accepted with the exact value. A fixed corpus (min-1/min/max/max+1 of every width in 8 literal forms, all 8-bit literals in [-300,300], all 16-bit values, float edge bit patterns and threshold literals, duration limits, every single and ordered pair of 113 hostile string pieces in four collection types) runs at every seed, plus millions of seeded cases.",
+         "canonical text = what the flag helpers' String() prints and strconv for scalars; texts that are canonical for no value (duplicate keys, unquotable literals) and typed map[K]V round-trips are recorded, not judged",
+         "DESIGN.md section 4 C15; notes/C15-SENSITIVITY.md"),
+})
 NOT_YET = "check not yet built in this session (planned in DESIGN.md section 4; the technique applies)"
 
 def main():
